@@ -137,6 +137,10 @@ func (r *PKIndexReaderImpl) createFieldRefFunc(
 	// The rows of a file are in the order of record.SortHelper.SortForColumnStore, which sorts a null key as the
 	// smallest value it knows for the type (lib/record/sort_item.go Pad*Slice). A null index cell is read as that
 	// value, so that the index is ordered the way the data is.
+	//
+	// The index the attached flush writes (one row per key group, last column __fragment__) is ordered differently:
+	// colstore.KeySorter puts a null key strictly before every value. There a null cell is read as -infinity.
+	nullFirst := index.Schema.Len() > 0 && index.Schema[index.Schema.Len()-1].Name == record.FragmentField
 	nullPadColumns := make([]*ColumnRef, usedKeySize)
 	doCreateFieldRef := func(row int, column int, field *FieldRef, cols []*ColumnRef) {
 		field.Set(cols, column, row)
@@ -144,7 +148,11 @@ func (r *PKIndexReaderImpl) createFieldRefFunc(
 			// a row behind the index record (an index without a trailing last-key row): no upper bound is known
 			field.SetPositiveInfinity()
 		} else if field.IsNull() {
-			field.Set(nullPadColumns, column, 0)
+			if nullFirst {
+				field.SetNegativeInfinity()
+			} else {
+				field.Set(nullPadColumns, column, 0)
+			}
 		}
 	}
 
